@@ -205,6 +205,7 @@ def synthetic(rng, wild=False):
         Z.append(('wild-jumps', W([ts(2000, 1, 1), ts(2000, 1, 1, 1), ts(2000, 1, 1, 2), ts(2000, 1, 1, 3)], [1, 2, 0, 1],
                                   [(0, False, 'AAA'), (36000, True, 'BBB'), (-36000, False, 'CCC')])))
         U = ts(1985, 6, 1, 12)
+        Z.append(('wild-two-setbacks-30min-apart', W([U, U + 1800], [1, 2], [(7200, False, 'AAA'), (3600, False, 'BBB'), (0, False, 'CCC')])))
         Z.append(('wild-flip-flop-10min', W([U, U + 600, U + 1200, U + 1800], [2, 1, 2, 1], [(3600, False, 'AAA'), (0, False, 'BBB'), (3600, False, 'CCC')])))
         Z.append(('wild-many-types', W([ts(1999, 12, 31, 23) + 600 * i for i in range(12)], [(i % 4) for i in range(12)],
                                        [(0, False, 'Q0'), (3600, True, 'Q1'), (-7200, False, 'Q2'), (1800, True, 'Q3')])))
